@@ -9,14 +9,14 @@ def declare(reg):
         "ite(k in m._msg_key_to_idx, m.uids[get(m._msg_key_to_idx, k)], None)",
     )
     reg.contract(
-        P, "Mailbox.get_uid_from_msg",
+        P, "Mailbox.get_uid_from_msg", uses_invariant=True,
         params={"self": "ref:Mailbox", "msg_key": "int"}, ret="tuple[int,opt[int]]",
         ensures={"vv": "result[0] == self.uid_vv", "uid": "result[1] == uid_of_key(self, msg_key)"},
         props=["C14", "C03"],
     )
     reg.specfn("uid_max", "m: ref:Mailbox", "int", "ite(len(m.uids) > 0, m.uids[len(m.uids) - 1], 1)")
     reg.contract(
-        P, "Mailbox.msg_set_to_msg_seq_set",
+        P, "Mailbox.msg_set_to_msg_seq_set", uses_invariant=True,
         params={"self": "ref:Mailbox", "msg_set": "opt[list[MsgElt]]", "from_uids": "bool"}, ret="opt[set[int]]",
         requires={"wf": "is_none(msg_set) or wf_msgset(some(msg_set))"},
         ensures={
@@ -180,7 +180,7 @@ def declare(reg):
         "disk": "self.mailbox.g_keys == old(self.mailbox.g_keys) - elems(_it) | (elems(_it) & elems(self.msg_keys) & old(self.mailbox.g_keys))",
     }
     reg.contract(
-        P, "Mailbox.expunge",
+        P, "Mailbox.expunge", uses_invariant=True,
         params={"self": "ref:Mailbox", "uid_msg_set": "opt[list[int]]", "check_deleted": "bool"},
         requires={"distinct-uids-arg": "is_none(uid_msg_set) or distinct(some(uid_msg_set))",
                   "disk-has-keys": "subset(elems(self.msg_keys), self.mailbox.g_keys)"},
@@ -252,16 +252,22 @@ def declare(reg):
     reg.contract(P, "Mailbox.set_sequences_in_folder", params={"self": "ref:Mailbox", "seqs": "defaultdict[str,set[int]]"},
                  ensures={"written": "forall(lambda s, k: mem(self.mailbox.g_seqs, s, k) == mem(seqs, s, k), 'str', 'int')"},
                  modifies=["MH.g_seqs"], **T, note="A-MH: MH.set_sequences rewrites .mh_sequences with exactly the non-empty sequences given")
-    reg.contract(P, "Mailbox.get_msg", params={"self": "ref:Mailbox", "msg_key": "int"}, ret="opaque:EmailMessage", **T, note="A-EMAIL")
+    reg.contract(P, "Mailbox.get_msg", params={"self": "ref:Mailbox", "msg_key": "int"}, ret="opaque:EmailMessage",
+                 ensures={"is-msg": "result == msg_of(self, msg_key)"}, raises={"KeyError": None, "FileNotFoundError": None},
+                 **T, note="A-EMAIL/A-MH: parses the stored file; KeyError/FileNotFoundError when the file is gone")
     reg.contract(P, "Mailbox._generate_fetch_msg_for", params={"self": "ref:Mailbox", "msg_key": "int", "publish_uid": "bool"},
                  ret="tuple[str,str]", **T, note="assumed here (pure string builder; C07 states its grammar)")
     reg.contract(P, "Mailbox.check_set_haschildren_attr", params={"self": "ref:Mailbox"}, modifies=["self.attributes"], **T, note="assumed: only attributes")
     reg.contract("<proxy>", "ClientProxy.push", params={"self": "ref:ClientProxy", "data": "list[str]"}, yields=True, **T,
-                 ghost={"varargs": "data"}, note="A-ASYNC: writes to the client's socket")
+                 ensures={"appended": "len(self.g_out) == len(old(self.g_out)) + len(data) and "
+                                      "forall(lambda j: implies(0 <= j and j < len(old(self.g_out)), self.g_out[j] == old(self.g_out)[j])) and "
+                                      "forall(lambda i: implies(len(old(self.g_out)) <= i and i < len(self.g_out), self.g_out[i] == data[i - len(old(self.g_out))]))"},
+                 modifies=["self.g_out"],
+                 ghost={"varargs": "data"}, note="A-ASYNC: hands the data to the client's socket in order (ghost g_out records it)")
 
     NF = "(s == 'Recent' or ite(s == 'Seen', not mem(msg_seqs, 'unseen', k), mem(msg_seqs, s, k)))"
     reg.contract(
-        P, "Mailbox.check_new_msgs_and_flags",
+        P, "Mailbox.check_new_msgs_and_flags", uses_invariant=True,
         params={"self": "ref:Mailbox", "dont_notify": "opt[ref:Authenticated]", "optional": "bool"}, ret="bool",
         requires={
             # E1 (DESIGN 6.3): outside asimap only new, larger-numbered files appear
